@@ -15,7 +15,10 @@ RULE = ('interstitial: random crystals/networks (as C02) with hostile data (jump
         '+-6) and random dipoles; vacancy: crystal pool x Nthermo {1,2} x sigma in {0.7, 3} x omega2 scalings {1, 1e4, 1e8, 1e12, 1e16}; '
         'non-trivial = every returned tensor; distinct = (system, input index, scaling)')
 ASSUMPTIONS = ['tolerance 1e-9 x scale, scale = larger of |tensor| and the uncorrelated magnitude (0.5 sum p w dx dx); 1e-6 when the '
-               'large-omega2 algorithm is active', 'energies |beta F| <= ~30']
+               'large-omega2 algorithm is active', 'energies |beta F| <= ~30',
+               'an indefinite Lss obtained with the default k-mesh is attributed to Brillouin-zone integration accuracy only if the negative '
+               'eigenvalue shrinks on denser meshes (NGFmax 8: not larger, 12: at most half); seen on the 2-D displaced triangular lattice with '
+               'bare rates spanning e^6 and binding e^7.6 (-425/-24/-5/-1 at NGFmax 4/8/12/16)']
 REQUIRED_OBS = {'eval:C03:symmetric:D': 40, 'eval:C03:invariant:D': 40, 'eval:C03:psd:D': 40, 'eval:C03:invariant:elastodiffusion': 20,
                 'eval:C03:psd:Lss': 40, 'eval:C03:invariant:Lsv': 40, 'eval:C03:invariant:L1vv': 40, 'eval:C03:psd:L0vv': 40}
 CASE_TIMEOUT = 900
@@ -84,6 +87,16 @@ def run_vac(case, mon):
             for nm, x, psd in (('L0vv', L[0], True), ('Lss', L[1], True), ('Lsv', L[2], False), ('L1vv', L[3], False)):
                 m2 = Mon(tags)
                 contracts.tensor2_contract(m2, diff.crys, x, nm, psd=psd, scale=max(sc, np.abs(x).max() if np.all(np.isfinite(x)) else sc), tol=tol)
+                if m2.viol and all(v['clause'].startswith('C03:psd') for v in m2.viol):
+                    def meas(dd, args=args, q=('L0vv', 'Lss', 'Lsv', 'L1vv').index(nm)):
+                        y = np.array(dd.Lij(*args)[q])
+                        return max(0., -np.linalg.eigvalsh(0.5 * (y + y.T)).min()) / max(sc, np.abs(y).max())
+                    lam = np.linalg.eigvalsh(0.5 * (x + x.T)).min()
+                    ok, ms = work_vac.resolved_by_denser_mesh(name, nth, meas, -lam / max(sc, np.abs(x).max()))
+                    mon.count('checked_by_mesh_convergence')
+                    if ok: m2.viol = []
+                    else:
+                        for v in m2.viol: v['detail'] += ' denser meshes: %s' % ms
                 for v in m2.viol:
                     v['detail'] += ' ' + str(desc)
                     mon.viol.append(v)
